@@ -580,6 +580,19 @@ package reflect
 //@   ensures err != nil ==> sd == nil
 //@   ensures forall k reflect.Type :: {maphas(prefetchStructDescCache, k)} maphas(prefetchStructDescCache, k) == old(maphas(prefetchStructDescCache, k)) && mapget(prefetchStructDescCache, k) == old(mapget(prefetchStructDescCache, k))
 
+// what is proved of newStructDesc's own code today (the contract above stays the caller-side assumption):
+// the concrete facts the wfSD axioms promise about the parts it builds itself
+//@ func newStructDesc(t reflect.Type) (sd *structDesc, err error)
+//@   requires t != nil
+//@   modifies $brk, $maps
+//@   ensures c13_kind: rtKind(structT(t)) != reflect.Struct ==> err != nil && sd == nil
+//@   ensures c12_rt: err == nil ==> sd != nil && sd.rt == structT(t)
+//@   ensures c11_holder: err == nil && sd.hasUnknownFields ==> sd.unknownFieldsOffset + 24 <= rtSize(structT(t))
+//@   ensures c10_init: err == nil && sd.hasInitFunc ==> sd.initFunc != nil
+//@   ensures c12_index: err == nil ==> len(sd.fieldIdx) == sd.maxID + 1
+//@   ensures c12_idx: err == nil ==> forall k int :: {sd.fieldIdx[k]} 0 <= k && k < len(sd.fieldIdx) ==> -1 <= sd.fieldIdx[k] && sd.fieldIdx[k] < len(sd.fields) && (sd.fieldIdx[k] >= 0 ==> sd.fields[sd.fieldIdx[k]].ID == k)
+//@   ensures c09_required: err == nil ==> forall j int :: {sd.requiredFieldIDs[j]} 0 <= j && j < len(sd.requiredFieldIDs) ==> sd.requiredFieldIDs[j] <= sd.maxID && sd.fieldIdx[sd.requiredFieldIDs[j]] >= 0
+
 //@ func newStructDescAndPrefetch(t reflect.Type) (sd *structDesc, err error)
 //@   requires c07_inv: $(pfinv)
 //@   modifies $maps, $brk, $complete, $inprog, "H.tType.Sd"
@@ -1238,7 +1251,7 @@ package reflect
 //@   requires d != nil && len(ff) <= 65536 && d.fixedLenFieldSize == 0
 //@   requires forall i int :: {ff[i]} 0 <= i && i < len(ff) ==> ff[i].Type != nil && 0 <= ff[i].F
 //@       && (rvKind(rvStrip(ff[i].Default)) != reflect.Invalid ==> rvCanAddr(rvStrip(ff[i].Default)))
-//@   modifies fields(d), $brk, $maps
+//@   modifies d.maxID, d.fieldIdx, d.fields, d.fixedLenFieldSize, d.varLenFields, d.requiredFieldIDs, $brk, $maps
 //@   panics when exists i int :: 0 <= i && i < len(ff) && ff[i].Opts % 2 == 1 && descOf(ff[i].Type).WT != tSTRING
 //@   ensures c12_index: len(d.fieldIdx) == d.maxID + 1 && len(d.fields) == len(ff)
 //@   ensures c12_idx: forall k int :: {d.fieldIdx[k]} 0 <= k && k < len(d.fieldIdx) ==> -1 <= d.fieldIdx[k] && d.fieldIdx[k] < len(d.fields) && (d.fieldIdx[k] >= 0 ==> d.fields[d.fieldIdx[k]].ID == k)
